@@ -4,13 +4,23 @@
    executed in some order that respects each thread's program order, and C02's invariant
    (hence its theorems: size bound, recency order, no ghost items ...) holds afterwards. *)
 From Boltons Require Import Lib.Prelude Lib.C03_Syntax Lib.C03_Conc Model.C03_Model
-     Proofs.C03_Serial Proofs.C03_Covered Proofs.C03_Main Proofs.C03_Link1 Proofs.C03_Link2.
+     Proofs.C03_Serial Proofs.C03_Covered Proofs.C03_Main Proofs.C03_Link1 Proofs.C03_Link2 Proofs.C03_Link4.
 From Boltons Require Lib.C02_Syntax Model.C02_Model Model.C02_PtrModel Model.C02_PtrCache.
 From Boltons Require Proofs.C02_Lists Proofs.C02_Inv Proofs.C02_Refine Proofs.C02_PtrLemmas Proofs.C02_PtrRep Proofs.C02_PtrSim.
 
 Module Rf2 := Boltons.Proofs.C02_Refine.
 
-Definition translatable (o : op) : Prop := tr o <> None.
+(* one operation on C02's sequential model: the 13 operations of C02's syntax through step1;
+   copy() returns the items of the linked list oldest first (C02_copy: the copy's ring is the
+   source's ring) and c == c is True; neither changes the cache *)
+Definition c02_op (c2 : S2.cfg) (m : M2.cache) (o : op) : M2.cache * rv :=
+  match tr o with
+  | Some o1 => let '(m', out) := M2.step1 c2 m o1 in (m', conv_out o out)
+  | None => match o with
+            | Copy => (m, RItems (M2.ring m))
+            | _ => (m, RBool true)
+            end
+  end.
 
 (* C02's sequential model driven by the threads' programs in a given order *)
 Definition c02_state := (M2.cache * (nat -> list op) * (nat -> list rv))%type.
@@ -19,12 +29,7 @@ Definition c02_step (c2 : S2.cfg) (st : c02_state) (t : nat) : c02_state :=
   let '(m, todo, done) := st in
   match todo t with
   | [] => st
-  | o :: r =>
-      match tr o with
-      | Some o1 => let '(m', out) := M2.step1 c2 m o1 in
-                   (m', upd todo t r, upd done t (done t ++ [conv_out o out]))
-      | None => st
-      end
+  | o :: r => let '(m', a) := c02_op c2 m o in (m', upd todo t r, upd done t (done t ++ [a]))
   end.
 
 Definition c02_serial (c2 : S2.cfg) (order : list nat) (m0 : M2.cache) (progs : nat -> list op) : c02_state :=
@@ -55,7 +60,7 @@ Section Link.
   Variables (tb : lock_table) (c : config).
   Hypothesis Hmax : 1 <= cf_max c.
 
-  (* one operation *)
+  (* one operation of C02's syntax *)
   Lemma op_link s m o o1 :
     tr o = Some o1 -> stands_for c s m ->
     let '(s', r) := run_op tb c s o in
@@ -70,38 +75,51 @@ Section Link.
     split; [reflexivity|]. split; [exact I'|]. exists p'. split; assumption.
   Qed.
 
+  (* any of the 15 operations *)
+  Lemma op_link_all s m o :
+    stands_for c s m ->
+    let '(s', r) := run_op tb c s o in
+    let '(m', r') := c02_op (cfg2 c) m o in
+    r = r' /\ stands_for c s' m'.
+  Proof.
+    intro SF. unfold c02_op. destruct (tr o) as [o1|] eqn:T.
+    - pose proof (op_link s m o o1 T SF) as OL.
+      destruct (run_op tb c s o) as [s' r]. destruct (M2.step1 (cfg2 c) m o1) as [m' out]. exact OL.
+    - destruct o; simpl in T; try discriminate.
+      + rewrite eqself_link. split; [reflexivity|exact SF].
+      + destruct SF as [I [p [PR R]]].
+        rewrite (copy_link tb c s m p (lk_of _ _ _ I PR) R).
+        * split; [reflexivity|]. split; [exact I|]. exists p. split; assumption.
+        * destruct I as [_ _ _ _ CAP _]. exact CAP.
+  Qed.
+
   Variable progs : nat -> list op.
-  Hypothesis progs_ok : forall t, Forall translatable (progs t).
   Variables (sh0 : shared) (m0 : M2.cache).
   Hypothesis init_ok : stands_for c sh0 m0.
 
   Lemma serial_link order :
     let '(shS, todoS, doneS) := serial_run tb c progs sh0 order in
     let '(mS, todoC, doneC) := c02_serial (cfg2 c) order m0 progs in
-    (forall t, todoS t = todoC t) /\ (forall t, doneS t = doneC t)
-    /\ stands_for c shS mS /\ (forall t, Forall translatable (todoS t)).
+    (forall t, todoS t = todoC t) /\ (forall t, doneS t = doneC t) /\ stands_for c shS mS.
   Proof.
     induction order as [|t order IH] using rev_ind.
-    - unfold serial_run, serial, c02_serial. simpl. split; [reflexivity|]. split; [reflexivity|]. split; [exact init_ok|exact progs_ok].
+    - unfold serial_run, serial, c02_serial. simpl. split; [reflexivity|]. split; [reflexivity|exact init_ok].
     - unfold serial_run, serial, c02_serial in *. rewrite !fold_left_app. simpl.
       destruct (fold_left (serial_step sem (compile_l tb c)) order (sh0, progs, fun _ => []))
         as [[shS todoS] doneS].
       destruct (fold_left (c02_step (cfg2 c)) order (m0, progs, fun _ => [])) as [[mS todoC] doneC].
-      destruct IH as [HT [HD [SF TR]]].
+      destruct IH as [HT [HD SF]].
       unfold serial_step, c02_step. rewrite <- HT.
       destruct (todoS t) as [|o r] eqn:ET.
-      + split; [exact HT|]. split; [exact HD|]. split; [exact SF|exact TR].
-      + pose proof (TR t) as TRt. rewrite ET in TRt. inversion TRt as [|? ? To Tr]; subst.
-        unfold translatable in To. destruct (tr o) as [o1|] eqn:Eo; [|congruence].
-        pose proof (op_link shS mS o o1 Eo SF) as OL.
+      + split; [exact HT|]. split; [exact HD|exact SF].
+      + pose proof (op_link_all shS mS o SF) as OL.
         unfold compile_l. fold (run_op tb c shS o).
-        destruct (run_op tb c shS o) as [s' r']. destruct (M2.step1 (cfg2 c) mS o1) as [m' out].
+        destruct (run_op tb c shS o) as [s' r']. destruct (c02_op (cfg2 c) mS o) as [m' a].
         destruct OL as [Er SF']. subst r'.
-        split; [|split; [|split]].
+        split; [|split].
         * intro u. unfold upd. destruct (Nat.eqb u t); [reflexivity|apply HT].
         * intro u. unfold upd. destruct (Nat.eqb u t); [now rewrite HD|apply HD].
         * exact SF'.
-        * intro u. unfold upd. destruct (Nat.eqb u t); [exact Tr|apply TR].
   Qed.
 End Link.
 
@@ -109,7 +127,7 @@ End Link.
 Theorem atomic_wrt_c02 :
   forall tb, table_covered tb = true ->
   forall c, 1 <= cf_max c ->
-  forall progs, (forall t, Forall translatable (progs t)) ->
+  forall progs : nat -> list op,
   forall sh0 m0, stands_for c sh0 m0 ->
   forall sched,
     let s := conc_run tb c progs sh0 sched in
@@ -120,13 +138,13 @@ Theorem atomic_wrt_c02 :
       /\ (forall t, todoC t = [])                        (* every operation was executed, in program order *)
       /\ stands_for c (m_sh s) mS.                       (* final dict + ring represent C02's final state *)
 Proof.
-  intros tb T c Hmax progs PO sh0 m0 SF sched s F.
+  intros tb T c Hmax progs sh0 m0 SF sched s F.
   destruct (serialisable_model tb T c progs sh0 sched F) as [order H].
   exists order.
-  pose proof (serial_link tb c Hmax progs PO sh0 m0 SF order) as L.
+  pose proof (serial_link tb c Hmax progs sh0 m0 SF order) as L.
   destruct (serial_run tb c progs sh0 order) as [[shS todoS] doneS].
   destruct (c02_serial (cfg2 c) order m0 progs) as [[mS todoC] doneC].
-  destruct H as [Hsh [Hd Ht]]. destruct L as [LT [LD [LS _]]].
+  destruct H as [Hsh [Hd Ht]]. destruct L as [LT [LD LS]].
   fold s in Hsh, Hd. split; [|split].
   - intro t. rewrite Hd. apply LD.
   - intro t. rewrite <- LT. apply Ht.
@@ -137,14 +155,14 @@ Qed.
 Corollary never_exceeds_max_size :
   forall tb, table_covered tb = true ->
   forall c, 1 <= cf_max c ->
-  forall progs, (forall t, Forall translatable (progs t)) ->
+  forall progs : nat -> list op,
   forall sh0 m0, stands_for c sh0 m0 ->
   forall sched,
     let s := conc_run tb c progs sh0 sched in
     finished s -> view_len (m_sh s) <= cf_max c.
 Proof.
-  intros tb T c Hmax progs PO sh0 m0 SF sched s F.
-  destruct (atomic_wrt_c02 tb T c Hmax progs PO sh0 m0 SF sched F) as [order H].
+  intros tb T c Hmax progs sh0 m0 SF sched s F.
+  destruct (atomic_wrt_c02 tb T c Hmax progs sh0 m0 SF sched F) as [order H].
   destruct (c02_serial (cfg2 c) order m0 progs) as [[mS todoC] doneC].
   destruct H as [_ [_ SFs]]. unfold view_len. eapply stands_for_size. exact SFs.
 Qed.
@@ -154,22 +172,22 @@ Qed.
 Corollary usable_afterwards :
   forall tb, table_covered tb = true ->
   forall c, 1 <= cf_max c ->
-  forall progs, (forall t, Forall translatable (progs t)) ->
+  forall progs : nat -> list op,
   forall sh0 m0, stands_for c sh0 m0 ->
   forall sched,
     let s := conc_run tb c progs sh0 sched in
     finished s ->
     exists mS, stands_for c (m_sh s) mS /\
-      forall o o1, tr o = Some o1 ->
+      forall o,
         let '(s', r) := run_op tb c (m_sh s) o in
-        let '(m', out) := M2.step1 (cfg2 c) mS o1 in
-        r = conv_out o out /\ stands_for c s' m'.
+        let '(m', r') := c02_op (cfg2 c) mS o in
+        r = r' /\ stands_for c s' m'.
 Proof.
-  intros tb T c Hmax progs PO sh0 m0 SF sched s F.
-  destruct (atomic_wrt_c02 tb T c Hmax progs PO sh0 m0 SF sched F) as [order H].
+  intros tb T c Hmax progs sh0 m0 SF sched s F.
+  destruct (atomic_wrt_c02 tb T c Hmax progs sh0 m0 SF sched F) as [order H].
   destruct (c02_serial (cfg2 c) order m0 progs) as [[mS todoC] doneC].
   destruct H as [_ [_ SFs]]. exists mS. split; [exact SFs|].
-  intros o o1 To. apply (op_link tb c Hmax); assumption.
+  intro o. apply (op_link_all tb c Hmax). exact SFs.
 Qed.
 
 (* and through C02's refinement theorem, every sequential operation of the C03 model is accepted
